@@ -20,6 +20,9 @@ CONSTANTS Roles,     \* endpoint under test: "client_gm", "server_gm", "server_a
           Truncs,    \* how a message body is cut / which length field is perturbed
           Versions,  \* client_version values written into the ClientHello
           SuiteRewrites,
+          Scripts,   \* consistent deviations of the scripted GMSSL client ("none" = honest)
+          Policies,  \* the server's client-certificate policy in the scripted cases
+          CutMax,    \* bodies are cut at every position 0..CutMax (positions beyond the body are skipped by the driver)
           SelfMals,  \* how the inner 16-bit length of a self-produced key-exchange message is wrong
           ClientAuth \* BOOLEAN: the honest flight includes CertificateRequest / client Certificate / CertificateVerify
 
@@ -39,7 +42,7 @@ Accept(r, ca, k) == LET h == Honest(r, ca) IN IF k < Len(h) THEN {h[k + 1]} ELSE
 VARIABLES role, ca, k, op, pc, input, pos, hist
 vars == <<role, ca, k, op, pc, input, pos, hist>>
 
-Benign(o) == o.op \in {"none", "refrag", "warnalert"}
+Benign(o) == o.op \in {"none", "refrag", "warnalert"} \/ (o.op = "script" /\ o.how = "none")
 
 \* the input stream the peer produces: honest flight with the op applied at message index k (1-based)
 Apply(h, kk, o) ==
@@ -59,6 +62,11 @@ Apply(h, kk, o) ==
     \* the peer itself offers another client_version, answers the server's flight with a well-formed key exchange and
     \* then produces no valid Finished: whatever version the server settled on, it ends with an error
     [] o.op = "selfvers" -> <<"MOD">> \o SubSeq(h, 2, Len(h))
+    \* a scripted GMSSL client (own transcript and key schedule) that deviates consistently: "none" is the honest script
+    [] o.op = "script" -> IF o.how = "none" THEN h ELSE <<"BAD">>
+    \* a scripted server that holds the genuine keys: selects an ECDHE-SM2 suite and names another curve; or runs the
+    \* honest ECC flight and then sends its (correct) Finished in the clear without ChangeCipherSpec
+    [] o.op = "srvscript" -> <<"SH", "CERT", "BAD">>
     [] o.op = "close"  -> SubSeq(h, 1, kk - 1) \o <<"EOF">>
     [] o.op = "ccs"    -> SubSeq(h, 1, kk - 1) \o <<"X:CCS">> \o SubSeq(h, kk, Len(h))
     [] o.op \in {"appdata", "appdata_empty"} -> SubSeq(h, 1, kk - 1) \o <<"X:APP">> \o SubSeq(h, kk, Len(h))
@@ -72,8 +80,12 @@ Ops(h) == {[op |-> "none"], [op |-> "refrag"]} \cup
           {[op |-> "inject", k |-> i, t |-> t] : i \in 1..(Len(h) + 1), t \in InjTypes} \cup
           {[op |-> "trunc", k |-> i, how |-> w] : i \in 1..Len(h), w \in Truncs} \cup
           UNION {{[op |-> "replace", k |-> i, t |-> t] : t \in InjTypes \ {h[i]}} : i \in 1..Len(h)} \cup
+          \* every cut position of the short structured messages (hello, key exchange, certificate request / verify)
+          {[op |-> "trunc", k |-> i, how |-> "cut" \o ToString(n)] : i \in {j \in 1..Len(h) : h[j] \in {"CH", "SH", "SKE", "CREQ", "CKE", "CV"}}, n \in 0..CutMax} \cup
           {[op |-> "selfmal", k |-> i, how |-> w] : i \in {j \in 1..Len(h) : h[j] \in {"CKE", "SKE"}}, w \in SelfMals} \cup
-          (IF h[1] = "CH" THEN {[op |-> "chvers", k |-> 1, v |-> v] : v \in Versions} \cup
+          (IF h[1] = "SH" THEN {[op |-> "srvscript", k |-> 3, how |-> w] : w \in {"ecdhe_curve99", "ecdhe_curve23", "ecdhe_curve24", "noccs_plainfin"}} ELSE {}) \cup
+          (IF h[1] = "CH" THEN UNION {{[op |-> "script", k |-> 1, how |-> w, policy |-> p] : p \in {q \in Policies : w \in {"omit_cv", "dup_cv"} => q # "none"}} : w \in Scripts} \cup
+                               {[op |-> "chvers", k |-> 1, v |-> v] : v \in Versions} \cup
                                {[op |-> "selfvers", k |-> 1, v |-> v] : v \in Versions \cup {258, 511, 767}} \cup
                                {[op |-> "chsuites", k |-> 1, how |-> w] : w \in SuiteRewrites} \cup
                                {[op |-> "chcomp", k |-> 1]}
